@@ -200,6 +200,39 @@ def _independence(data):
     return count, bad_cases
 
 
+# ---------------------------------------------------------------- blind histories
+BLIND_OPS = [("get_byte",), ("get_char",), ("get_short",), ("get_bytes", 2), ("get_string",), ("get_fixed_string", 2, 1),
+             ("mode", 1), ("mode", 0), ("next_chunk",), ("get_encoded_string",), ("get_int",)]
+
+
+def blind_case(data, hist):
+    """Run a history WITHOUT reading any property in between (an observation must not be what keeps the reader right);
+    compare every return value and the final state."""
+    cls = _reader_cls()
+    real, model = cls(bytes(data)), RefReader(bytes(data))
+    for i, op in enumerate(hist):
+        op = tuple(op)
+        if op[0] == "mode":
+            real.chunked_reading_mode = bool(op[1])
+            model.chunked = bool(op[1])
+            continue
+        o_r = _obs_real(lambda: call(real, op))
+        o_m = _obs_model(lambda: call(model, op))
+        if o_r != o_m:
+            return f"unobserved history {list(hist)} step {i}: {op!r} returned real={o_r!r} model={o_m!r}"
+    return ReaderProduct._state_cmp(real, model)
+
+
+def _blind(data, depth):
+    count, bad = 0, []
+    for hist in itertools.product(BLIND_OPS, repeat=depth):
+        count += 1
+        what = blind_case(data, hist)
+        if what and len(bad) < 2:
+            bad.append(({"data": bytes(data), "history": [list(o) for o in hist]}, what))
+    return count, bad
+
+
 # ---------------------------------------------------------------- shard worker
 def _work(shard):
     datas, slice_full_len, ind_len = shard
@@ -222,6 +255,11 @@ def _work(shard):
             tot["ind"] += c
             for case, what in bads:
                 viol.append({"kind": "independence", "case": case, "what": what})
+        if 2 <= len(data) <= ind_len + 1:
+            c, bads = _blind(data, 3)
+            tot["ind"] += c
+            for case, what in bads:
+                viol.append({"kind": "blind", "case": case, "what": what})
     return tot, viol[:6], samples
 
 
@@ -236,6 +274,8 @@ def _key_for(v):
     if v["kind"] == "history":
         last = v["history"][-1]
         return f"reader-op:{last[0]}:{v['what'].split(' real=')[0][:60]}"
+    if v["kind"] == "blind":
+        return f"unobserved-history:{v['what'].split(' step ')[-1][:50]}"
     return f"slice-independence:{v['what'][:60]}"
 
 
@@ -263,7 +303,7 @@ def run(tier, seed):
                 case = {"kind": "history", "data": v["data"], "history": v["history"]}
                 what = f"data={v['data'].hex()} history={v['history']}: {v['what']}"
             else:
-                case = dict(v["case"], kind="independence")
+                case = dict(v["case"], kind=v["kind"])
                 what = f"{v['case']}: {v['what']}"
             violations.append({"key": _key_for(v), "what": what, "case": case})
 
@@ -286,7 +326,7 @@ def run(tier, seed):
             "a state is distinct by (generic snapshot of the real reader, model state); every transition is "
             "one real call compared with the reference (return/exception class, position, remaining, mode); "
             "slices are transitions into the child reader; independence_executions are (parent op, child op) "
-            "orders replayed against two reference readers"
+            "orders replayed against two reference readers, and every history of 3 operations over an 11-op menu run WITHOUT intermediate property reads (data length 2..3 quick, 2..4 thorough)"
         ),
         "samples": samples[:4],
     }
@@ -312,6 +352,8 @@ def replay(case):
             tuple(case["slice"]),
             [(w, tuple(o)) for w, o in case["seq"]],
         )
+    if case["kind"] == "blind":
+        return blind_case(bytes(case["data"]), [tuple(o) for o in case["history"]])
     if case["kind"] == "tlc-edge":
         from .. import tlc
 
